@@ -242,3 +242,26 @@ Section Sound.
     eapply HI; eauto.
   Qed.
 End Sound.
+
+(* ---------- the converse direction fails (KF-view-drops-types) ---------- *)
+Definition S_refute : vsrc :=
+  {| v_types := [ {| vt_name := "Query"; vt_abstract := false; vt_fields := [ {| vf_name := "pet"; vf_type := "Pet"; vf_args := [] |} ]; vt_possible := [] |};
+                  {| vt_name := "Pet"; vt_abstract := true; vt_fields := []; vt_possible := ["Fish"] |};
+                  {| vt_name := "Named"; vt_abstract := true; vt_fields := [ {| vf_name := "name"; vf_type := "String"; vf_args := [] |} ]; vt_possible := ["Fish"] |};
+                  {| vt_name := "Fish"; vt_abstract := false; vt_fields := [ {| vf_name := "name"; vf_type := "String"; vf_args := [] |} ]; vt_possible := [] |};
+                  {| vt_name := "String"; vt_abstract := false; vt_fields := []; vt_possible := [] |} ];
+     v_query := Some "Query"; v_mutation := None; v_subscription := None |}.
+Definition p_refute : operm := {| p_query := AF false [("pet", AF true [])]; p_mutation := AF false []; p_subscription := AF false [] |}.
+Lemma view_complete_refuted :
+  std_roots S_refute /\ Selectable S_refute p_refute "Named" "name" /\
+  view_visible (filter_schema 20 S_refute p_refute) "Named" "name" = false.
+Proof.
+  split; [repeat split; intros n E; inversion E; reflexivity|]. split; [|vm_compute; reflexivity].
+  assert (Hq : Reach S_refute p_refute "Query" (p_query p_refute)) by (apply R_query; reflexivity).
+  assert (Hp : Reach S_refute p_refute "Pet" (AF true [])).
+  { eapply (R_field S_refute p_refute "Query" _ _ {| vf_name := "pet"; vf_type := "Pet"; vf_args := [] |} (AF true [])); [exact Hq | reflexivity | reflexivity | left; reflexivity | reflexivity]. }
+  assert (Hf : Reach S_refute p_refute "Fish" (AF true [])).
+  { eapply (R_possible S_refute p_refute "Pet"); [exact Hp | reflexivity | reflexivity | left; reflexivity]. }
+  assert (Hn : Reach S_refute p_refute "Named" (AF true [])) by (eapply R_overlap; [exact Hf | reflexivity]).
+  eexists (AF true []), _. split; [exact Hn|]. split; [reflexivity|]. split; [left; reflexivity | reflexivity].
+Qed.
